@@ -205,6 +205,14 @@ void stateBytes(std::string &b)
 
 struct Plan { int cap, k; bool startsIdle; int bound; bool full; };
 
+// seconds left of the tier's global deadline (the driver passes the total; V::S().start is the harness start)
+double remainingS(const V::Ctx &ctx)
+{
+    if (ctx.deadlineS <= 0) return 0;                      // no deadline
+    const double r = ctx.deadlineS - difftime(time(nullptr), V::S().start);
+    return r < 2 ? -1 : r;
+}
+
 void body(V::Ctx &ctx)
 {
     std::vector<Plan> plans;
@@ -215,11 +223,12 @@ void body(V::Ctx &ctx)
             for (int si = 0; si < 2; ++si)
                 plans.push_back({cap, k, si == 1, bound, false});
     // complete part (no preemption bound, state-hash pruning): the small configurations
-    // (quick: k = 1, and k = 2 for the consumer that starts idle; thorough: all of k <= 2)
+    // (quick: capacity 1,2 with k <= 2; thorough: also capacity 4, and k = 3 for the consumer that starts idle)
     for (int cap : {1, 2, 4})
-        for (int k = 1; k <= 2; ++k)
+        for (int k = 1; k <= 3; ++k)
             for (int si = 0; si < 2; ++si) {
-                if (ctx.quick() && (cap == 4 || !(k == 1 || (k == 2 && si == 1)))) continue;
+                if (ctx.quick() && (cap == 4 || k > 2)) continue;
+                if (k == 3 && (si == 0 || cap == 1)) continue;
                 plans.push_back({cap, k, si == 1, 1000, true});
             }
 
@@ -259,7 +268,9 @@ void body(V::Ctx &ctx)
             V::end_case();
             continue;
         }
-        VS::explore(sc, st, ctx.deadlineS);
+        const double left = remainingS(ctx);
+        if (left < 0) { V::S().sh->deadlineHit = 1; V::count("scenarios_skipped_at_deadline"); V::end_case(); continue; }
+        VS::explore(sc, st, left);
         V::count("executions", st.executions);
         V::count("steps", st.steps);
         V::count("states", st.states);
